@@ -16,13 +16,16 @@ struct Both { @location(0) p: vec3<f32>, @location(1) w: f32 }
 struct FragIn { @location(0) c: vec4<f32> }
 struct VsOut { @builtin(position) pos: vec4<f32>, @location(0) c: vec4<f32> }
 struct BigArr { n: u32, data: array<vec4<f32>, 7> }
+struct Inst2 { @location(5) p: vec4<f32>, @location(6) q: vec4<f32> }
+struct Scene { fallback: Inst2, exposure: f32, gamma: f32 }
+@group(0) @binding(4) var<uniform> scene: Scene;
 @group(0) @binding(3) var<uniform> bigarr: BigArr;
 @group(0) @binding(0) var<uniform> host: HostOnly;
 @group(0) @binding(1) var<uniform> both: Both;
 const K: u32 = 3u;
 override scale: f32 = 1.0;
 var<push_constant> pc: vec4<f32>;
-@vertex fn vs(a: VertexOnly, b: Both) -> VsOut { var o: VsOut; o.pos = a.p; return o; }
+@vertex fn vs(a: VertexOnly, b: Both, c: Inst2) -> VsOut { var o: VsOut; o.pos = a.p; return o; }
 @fragment fn fs(i: FragIn) -> @location(0) vec4<f32> { return i.c * host.x * pc.x; }
 @compute @workgroup_size(2) fn cs() {}
 '''
@@ -30,7 +33,7 @@ SRC_RT = SRC_NO_RT + '''struct RtHost { n: u32, data: array<vec4<f32>> }
 @group(0) @binding(2) var<storage, read> rt: RtHost;
 '''
 ROLES = {'Inner': ('host', False), 'HostOnly': ('host', False), 'VertexOnly': ('vertex', False), 'Both': ('host', False),
-         'FragIn': ('other', False), 'RtHost': ('host', True), 'BigArr': ('host', False)}
+         'FragIn': ('other', False), 'RtHost': ('host', True), 'BigArr': ('host', False), 'Inst2': ('host', False), 'Scene': ('host', False)}
 
 
 def expected_derives(role, rt, o):
